@@ -92,7 +92,8 @@ def work(ctx_like, tools, exe_ir, exe_glsl, workers, quick, ops_src):
                 variants.append({"a": arr("i", [x, y]), "au": arr("u", [x, y]), "_desc": "operands %s" % [hex(x), hex(y)], "_ops": [x, y]})
         elif tag == "index":
             L = meta["len"][0] if isinstance(meta["len"], list) else 3
-            for tup in [(0, 1, 0, 0), (L - 1, 0, 0, 0), (L, 0, 0, 0), (0, L, 0, 0), (0xFFFFFFFF, 0, 0, 0), (0, 0x80000000, 0, 0)]:
+            # (no 2^31 / 2^32-1 here: coq/Glsl/Sem.v converts an index to a unary nat before comparing it with the length)
+            for tup in [(0, 1, 0, 0), (L - 1, 0, 0, 0), (L, 0, 0, 0), (0, L, 0, 0), (L + 1, 0, 0, 0), (0, L + 2, 0, 0)]:
                 variants.append({"ix": arr("i" if meta["signed"] else "u", list(tup)), "_desc": "indices %s" % list(tup), "_tup": tup, "_len": L})
         else:
             variants.append({"_desc": "site %s" % meta["site"]})
@@ -150,6 +151,8 @@ def judge(ctx, W):
                 s["reference_undefined"] += 1
                 continue
         files = {"input.wgsl": c["src"], "emitted.glsl": c["text"], "input.json": json.dumps({k: v for k, v in c["v"].items()})}
+        nan_conv = c["tag"] == "operators" and c["name"] in ("ops_f2i", "ops_f2u") and \
+            any((x & 0x7F800000) == 0x7F800000 and (x & 0x007FFFFF) for x in c["v"]["_ops"])
         if not b.get("ok"):
             msg = str(b.get("msg"))
             cls = glslcorr.classify_fail(msg) if b.get("kind") == "fail" else b.get("kind")
@@ -157,11 +160,14 @@ def judge(ctx, W):
                 s["out_of_fragment"] += 1
                 s["oof_reasons"][("%s: %s" % (cls, msg))[:70]] = s["oof_reasons"].get(("%s: %s" % (cls, msg))[:70], 0) + 1
                 continue
+            if nan_conv:
+                s["value_left_open_by_wgsl"] += 1      # (GLSL: undefined value; WGSL: indeterminate value)
+                continue
             s["ub"] += 1
             if c["tag"] == "operators":
-                key = "glsl:ops:%s:ub:%s" % (c["name"][4:], msg[4:44])
+                key = "glsl:ops:%s:%s" % (c["name"][4:], slug(msg))
             elif c["tag"] == "index":
-                key = "glsl:index:no-policy:%s" % ("oob" if "bounds" in msg or "index" in msg else msg[4:44])
+                key = "glsl:index:no-policy:%s" % ("oob" if "bounds" in msg or "index" in msg else slug(msg))
             else:
                 key = "glsl:zero-init:%s:%s:ub" % (meta["space"], meta["site"])
             if key not in reported:
@@ -172,8 +178,7 @@ def judge(ctx, W):
         if c["tag"] == "index" and not in_range:
             s["agree"] += 1          # a hostile index that happened to be harmless in this program (e.g. a policy-free clamp)
             continue
-        if c["tag"] == "operators" and c["name"] in ("ops_f2i", "ops_f2u") and \
-                any((x & 0x7F800000) == 0x7F800000 and (x & 0x007FFFFF) for x in c["v"]["_ops"]):
+        if nan_conv:
             s["value_left_open_by_wgsl"] += 1
             s["agree"] += 1
             continue
@@ -201,6 +206,12 @@ def judge(ctx, W):
     st["policies"] = ("glsl.Options.BoundsCheckPolicies has ImageLoad / ImageStore only (images are outside the interpreter's fragment); "
                       "there is no index policy: a sample of the index programs is run in plain form")
     return st, sum(v["runs"] for v in st.values() if isinstance(v, dict) and "runs" in v)
+
+
+def slug(msg):
+    import re
+    m = msg[4:] if msg.startswith("UB: ") else msg
+    return re.sub(r"[^a-z0-9]+", "-", m.lower()).strip("-")[:56]
 
 
 def first_diff(a, b, path=""):
